@@ -93,8 +93,11 @@ def build_repo(kind="rel"):
                        "-DCMAKE_BUILD_TYPE=RelWithDebInfo",
                        "-DCMAKE_CXX_FLAGS=-Wno-error -D%s" % GUARD,
                        "-DCMAKE_C_FLAGS=-D%s" % GUARD]
-            elif kind == "asan":
+            elif kind in ("asan", "asan_nd"):
+                # asan: assertions on (Debug); asan_nd: the same with NDEBUG, i.e. the code paths of a release build
                 san = "-O1 -g -fsanitize=address,undefined -fno-sanitize=alignment -fno-omit-frame-pointer"
+                if kind == "asan_nd":
+                    san += " -DNDEBUG"
                 cfg = ["cmake", "-G", "Ninja", "-S", REPO, "-B", bdir,
                        "-DCMAKE_BUILD_TYPE=Debug",
                        "-DCMAKE_C_COMPILER=clang-14", "-DCMAKE_CXX_COMPILER=clang++-14",
@@ -236,9 +239,9 @@ def run_grcv(lines, timeout=600):
     return r.stdout.split("\n")
 
 
-def audit_axioms(theorems):
+def audit_axioms(theorems, modules=None):
     """#print axioms for each theorem name; returns dict name -> set(axioms) or None if missing."""
-    src = ["import GrcVerif"]
+    src = ["import %s" % m for m in modules] if modules else ["import GrcVerif"]
     for t in theorems:
         src.append("#print axioms %s" % t)
     p = os.path.join(SCRATCH_ROOT, "audit_%d.lean" % os.getpid())
@@ -336,10 +339,30 @@ class Report:
         return 1 if self.violations else 0
 
 
-def lean_gate(report, theorems, uses_tables=False):
+# Modules that hold only proof obligations about numbers/shapes extracted from the source (T1). The driver does not
+# import them, so a source change that breaks one of them breaks only the property that owns it.
+OBLIGATION_MODULES = {"VersionThm": "C15", "ArgsGen": "C11", "Limits": "C12"}
+
+
+def lean_modules(pid):
+    """All library modules except the obligation modules owned by other properties."""
+    mods = []
+    for root, dirs, files in os.walk(os.path.join(LEAN, "GrcVerif")):
+        for fn in sorted(files):
+            if fn.endswith(".lean"):
+                rel = os.path.relpath(os.path.join(root, fn), LEAN)[:-5].replace(os.sep, ".")
+                short = rel.split(".", 1)[1]
+                if OBLIGATION_MODULES.get(short, pid) != pid:
+                    continue
+                mods.append(rel)
+    return sorted(mods)
+
+
+def lean_gate(report, theorems, uses_tables=False, uses_args=False):
     """Common proof gate: regenerate tables from the source (T1), forbid sorry etc., lake build, audit axioms.
     Returns True if the proof side is intact. Records violations (no-failing-input-found) otherwise."""
     import extract_tables
+    import extract_args
     try:
         with Lock(os.path.join(SCRATCH_ROOT, ".lake.lock")):
             extract_tables.main()
@@ -349,12 +372,23 @@ def lean_gate(report, theorems, uses_tables=False):
         if uses_tables:
             report.violation("extract", {"broken": "T1 table extraction from constants.h/OutputToFont.cpp failed: %s" % e},
                              no_failing_input=True)
+    try:
+        with Lock(os.path.join(SCRATCH_ROOT, ".lake.lock")):
+            report.args_consts = extract_args.main()
+        report.coverage["arg_consts_regenerated_from_source"] = True
+    except extract_tables.ExtractError as e:
+        report.args_consts = None
+        report.coverage["arg_consts_regenerated_from_source"] = False
+        if uses_args:
+            report.violation("extract-args", {"broken": "T1 extraction from main.cpp/ErrorCheckClasses.cpp/GdlGlyphClassDefn.cpp failed: %s" % e},
+                             no_failing_input=True)
     hits = lean_grep_forbidden()
-    ok, out = lake_build()
+    mods = lean_modules(report.pid)
+    ok, out = lake_build(tuple(mods) + ("grcv",))
     res, text = ({}, "")
     bad = []
     if ok:
-        res, text = audit_axioms(theorems)
+        res, text = audit_axioms(theorems, mods)
         for t in theorems:
             ax = res.get(t)
             if ax is None:
@@ -363,19 +397,18 @@ def lean_gate(report, theorems, uses_tables=False):
                 bad.append("%s: axioms %s" % (t, sorted(ax)))
     report.coverage["obligations"] = len(theorems)
     report.coverage["discharged"] = sum(1 for t in theorems if res.get(t) is not None and res[t] <= ALLOWED_AXIOMS) if ok else 0
-    report.coverage["checker_cmd"] = "cd lean && lake build GrcVerif grcv && lake env lean <audit: #print axioms per theorem>"
+    report.coverage["checker_cmd"] = "cd lean && lake build <library modules> grcv && lake env lean <audit: #print axioms per theorem>"
     report.coverage["theorems"] = {t: (sorted(res[t]) if res.get(t) is not None else None) for t in theorems}
     report.coverage["trusted_base"] = [
         "Lean 4.33.0 kernel", "axioms: propext, Classical.choice, Quot.sound only (audited this run)",
         "Lean compiler/runtime for the executable checkers (grcv)",
         "python harness (generators, diffing), font builder, libgraphite2 1.3.14 where used",
     ]
+    report.lean_failure = None
     if hits or not ok or bad:
-        report.violation("lean-gate", {
-            "broken": "proof obligations no longer check",
-            "forbidden_tokens": hits, "lake_build_ok": ok,
-            "lake_output_tail": out[-4000:], "audit": bad,
-        }, no_failing_input=True)
+        report.lean_failure = {"forbidden_tokens": hits, "lake_build_ok": ok, "lake_output_tail": out[-4000:], "audit": bad}
+        report.violation("lean-gate", dict(report.lean_failure, broken="proof obligations no longer check"),
+                         no_failing_input=True)
         return False
     return True
 
